@@ -28,9 +28,18 @@ def gen_for(ck, sc, nsim, nedges, thorough):
     # 1. exhaustive check of the model of the current code (scenarios marked simonly are too large for the
     #    quick tier: there the invariants are evaluated on the simulated behaviours only)
     out["model_ok"], out["model_violated"] = True, []
-    if thorough or not sc.get("simonly"):
+    r = None
+    if not sc.get("simonly"):
         r = ck.tlc("fanout", "MCFanout", "m.cfg", files={"m.cfg": fs.cfg(sc, "check", invariants=INVS)}, workers=2,
                    timeout=3000, label="model check %s" % name, must_pass=False)
+    elif thorough:
+        # the scenarios too large for the quick tier get a bounded attempt: not finishing is recorded, not an error
+        try:
+            r = ck.tlc("fanout", "MCFanout", "m.cfg", files={"m.cfg": fs.cfg(sc, "check", invariants=INVS)}, workers=4,
+                       timeout=1200, label="model check %s (bounded attempt)" % name, must_pass=False)
+        except Infra as ex:
+            ck.log("model check of %s did not finish within 20 minutes: invariants evaluated on simulated behaviours only" % name)
+    if r is not None:
         out["model_ok"] = not (r.violated or r.error)
         out["model_violated"] = r.violated
         out["states"], out["trans"] = r.distinct, r.generated
@@ -66,7 +75,9 @@ def gen_for(ck, sc, nsim, nedges, thorough):
     #     lengths, flags); per class a seeded sample is replayed.  quick: transitions taken while >= 3 processes are
     #     in the middle of an operation ("racy"), 1 per class; thorough: all transitions, several per class.
     if nedges and not sc.get("simonly"):
-        mode = "edges" if thorough else "racy1"
+        # thorough: every racy transition (several per class); printing every transition of the graph ("edges") takes
+        # gigabytes per scenario and was given up after a first full run did not finish
+        mode = "racy" if thorough else "racy1"
         re_ = ck.tlc("fanout", "MCFanout", "e.cfg", files={"e.cfg": fs.cfg(sc, "edges", emit=mode)},
                      workers=(2 if thorough else 1), timeout=3000, label="edge cover (%s) %s" % (mode, name))
         rnd = random.Random(ck.seed * 7919 + len(name))
